@@ -160,7 +160,7 @@ def ip_template(rng, tid, nfields=None, lossless=False, varlen=True, enterprise=
 def value_for(rng, ty, w):
     """content bytes of one field value; boundary-biased"""
     if ty == "proto":
-        return bytes([rng.choice([0, 1, 6, 17, 47, 58, 132, 143, 144, 145, 255, rng.randrange(145)])])
+        return bytes([rng.choice([0, 1, 6, 17, 47, 58, 132, 143, 144, 145, 255, rng.randrange(145), rng.randrange(145), rng.randrange(146, 255)])])
     if ty == "str":
         if rng.random() < 0.7:
             return bytes(rng.choice(b"abcXYZ019 _-") for _ in range(w))
@@ -340,6 +340,280 @@ def fam_stream(rng, n, lossless=False, common=False, simple_ipfix=False, version
     return out
 
 
+# ------------------------------------------------------------------ relational families
+def rand_packets(rng, ex, n, versions=(5, 7, 9, 10)):
+    msgs = []
+    for _ in range(n):
+        v = rng.choice(versions)
+        if v == 5:
+            msgs.append(msg_v5(rng, rng.randrange(0, 4)))
+        elif v == 7:
+            msgs.append(msg_v7(rng, rng.randrange(0, 4)))
+        elif v == 9:
+            msgs.append(ex.v9_msg())
+        else:
+            msgs.append(ex.ip_msg())
+    return msgs
+
+
+def fam_chain(rng, n, max_pkts=6, all_partitions=False):
+    """C11: the same packet sequence joined in one call (p0), one packet per call (p1), and under
+    random (or all) partitions into consecutive calls (p2..)"""
+    out = []
+    for _ in range(n):
+        ex = Exporter(rng)
+        k = rng.randrange(2, max_pkts + 1)
+        msgs = rand_packets(rng, ex, k)
+        ops = [op_new(0), op_parse(0, msgs=msgs, want=[]), op_new(1)]
+        for m in msgs:
+            ops.append(op_parse(1, msgs=[m], want=[]))
+        ops.append({"op": "assert_chain", "a": 0, "b": 1})
+        parts = []
+        if all_partitions and k <= 7:
+            parts = list(range(1, 2 ** (k - 1) - 1))
+        else:
+            parts = [rng.randrange(0, 2 ** (k - 1)) for _ in range(2)]
+        pid = 2
+        for mask in parts:
+            ops.append(op_new(pid))
+            cur = [msgs[0]]
+            for i in range(1, k):
+                if mask >> (i - 1) & 1:
+                    ops.append(op_parse(pid, msgs=cur, want=[]))
+                    cur = []
+                cur.append(msgs[i])
+            ops.append(op_parse(pid, msgs=cur, want=[]))
+            ops.append({"op": "assert_chain", "a": 0, "b": pid})
+            pid += 1
+        out.append(("chain", ops))
+    return out
+
+
+def raw_version_msg(rng, v):
+    return {"raw": {"b": hx(v.to_bytes(2, "big") + rbytes(rng, rng.choice([0, 1, 5, 22, 40])))}}
+
+
+def msg_version(m):
+    if "v5" in m:
+        return 5
+    if "v7" in m:
+        return 7
+    if "v9" in m:
+        return 9
+    if "ipfix" in m:
+        return 10
+    return int(m["raw"]["b"][:4], 16)
+
+
+def fam_filter(rng, n):
+    """C12: allowed set S (p0) against every-version-allowed (p1) on the same buffer and history, and
+    an every-version-allowed parser fed only the allowed prefix (p2)"""
+    out = []
+    for _ in range(n):
+        ex = Exporter(rng)
+        hist = rand_packets(rng, ex, rng.randrange(0, 3), versions=(9, 10))
+        k = rng.randrange(1, 6)
+        msgs = []
+        for _ in range(k):
+            if rng.random() < 0.25:
+                msgs.append(raw_version_msg(rng, rng.choice([0, 1, 4, 6, 8, 11, 77, 65535])))
+            else:
+                msgs.extend(rand_packets(rng, ex, 1))
+        S = [v for v in (5, 7, 9, 10) if rng.random() < 0.6] + [v for v in (0, 6, 11, 77, 65535) if rng.random() < 0.3]
+        prefix = []
+        for m in msgs:
+            if msg_version(m) not in S:
+                break
+            prefix.append(m)
+            if "raw" in m:
+                break          # an unknown (allowed) version ends the result with an error
+        ops = []
+        for pid in (0, 1, 2):
+            ops.append(op_new(pid, allowed="all"))
+            if hist:
+                ops.append(op_parse(pid, msgs=hist, want=[]))
+        ops.append({"op": "allowed", "p": 0, "set": S})
+        ops.append(op_parse(0, msgs=msgs, want=[]))
+        ops.append(op_parse(1, msgs=msgs, want=[]))
+        if prefix:
+            ops.append(op_parse(2, msgs=prefix, want=[]))
+        else:
+            ops.append(op_parse(2, hexs="", want=[]))
+        a = {"op": "assert_filter", "a": 0, "b": 1}
+        # the prefix parser sees the history too, so compare only the LAST call's packets: done in the driver via `c`
+        a["c"] = 2
+        ops.append(a)
+        out.append(("filter", ops))
+    return out
+
+
+def fam_trunc(rng, n, fracs=None):
+    """C14: history, then  pre ++ (last packet cut strictly inside)  on p0 and  pre  alone on p1"""
+    out = []
+    for _ in range(n):
+        ex = Exporter(rng)
+        hist = rand_packets(rng, ex, rng.randrange(0, 3), versions=(9, 10))
+        pre = rand_packets(rng, ex, rng.randrange(0, 3))
+        v = rng.choice([5, 7, 9, 10])
+        if v in (5, 7):
+            last = (msg_v5 if v == 5 else msg_v7)(rng, rng.randrange(0, 4))
+        else:
+            last = rand_packets(rng, ex, 1, versions=(v,))[0]
+        for frac in (fracs or [rng.randrange(0, 1001)]):
+            ops = []
+            for pid in (0, 1):
+                ops.append(op_new(pid))
+                if hist:
+                    ops.append(op_parse(pid, msgs=hist, want=[]))
+            o = op_parse(0, msgs=pre + [last], want=[])
+            o["cutfrac"] = frac
+            ops.append(o)
+            ops.append(op_parse(1, msgs=pre, want=[]) if pre else op_parse(1, hexs="", want=[]))
+            ops.append({"op": "assert_trunc", "a": 0, "b": 1, "cutlen": "last", "keep_state": v != 9})
+            out.append(("trunc-v%d" % v, ops))
+    return out
+
+
+def fam_isolation(rng, n):
+    """C06: two parser instances fed interleaved histories with colliding template ids behave like
+    two parsers fed their histories alone; fixed-format packets / disallowed versions never touch the caches"""
+    out = []
+    for _ in range(n):
+        exa, exb = Exporter(rng), Exporter(rng)
+        ca = [rand_packets(rng, exa, rng.randrange(1, 3)) for _ in range(rng.randrange(2, 5))]
+        cb = [rand_packets(rng, exb, rng.randrange(1, 3)) for _ in range(rng.randrange(2, 5))]
+        ops = [op_new(0), op_new(1), op_new(2), op_new(3)]
+        ia = ib = 0
+        while ia < len(ca) or ib < len(cb):
+            if ib >= len(cb) or (ia < len(ca) and rng.random() < 0.5):
+                ops.append(op_parse(0, msgs=ca[ia], want=[]))
+                ia += 1
+            else:
+                ops.append(op_parse(1, msgs=cb[ib], want=[]))
+                ib += 1
+        for c in ca:
+            ops.append(op_parse(2, msgs=c, want=[]))
+        for c in cb:
+            ops.append(op_parse(3, msgs=c, want=[]))
+        ops.append({"op": "assert_same", "a": 0, "b": 2, "key": "C06"})
+        ops.append({"op": "assert_same", "a": 1, "b": 3, "key": "C06"})
+        # frame conditions on p0: V5/V7 packets, a disallowed version, garbage
+        ops.append(op_parse(0, msgs=[msg_v5(rng, 2), msg_v7(rng, 1)], want=[]))
+        ops.append({"op": "assert_unchanged", "a": 0, "key": "C06"})
+        ops.append({"op": "allowed", "p": 0, "set": [5, 7]})
+        ops.append(op_parse(0, msgs=rand_packets(rng, Exporter(rng), 2, versions=(9, 10)), want=[]))
+        ops.append({"op": "assert_unchanged", "a": 0, "key": "C06"})
+        out.append(("isolation", ops))
+    return out
+
+
+def fam_redefine(rng, n):
+    """C06: redefinitions of one id with different field lists (same kind and across kinds),
+    data sets before and after, under splits into calls"""
+    out = []
+    for _ in range(n):
+        ex = Exporter(rng)
+        ex.new_id = lambda: rng.choice([256, 257])      # force collisions
+        ops = [op_new(0)]
+        for _ in range(rng.randrange(3, 8)):
+            ops.append(op_parse(0, msgs=rand_packets(rng, ex, rng.choice([1, 1, 2]), versions=(9, 10))))
+        out.append(("redefine", ops))
+    return out
+
+
+def fam_unknown_template(rng, n):
+    """C07: a data set whose template id is unknown to this parser/protocol (but possibly known to the
+    other protocol or to another parser), alone, after other packets, and later followed by the template"""
+    out = []
+    for _ in range(n):
+        ex = Exporter(rng, simple_ipfix=True, lossless=True)
+        other = Exporter(rng, simple_ipfix=True, lossless=True)
+        proto = rng.choice([9, 10])
+        tid = rng.choice([256, 300, 999])
+        ops = [op_new(0), op_new(1)]
+        # the id is defined in the OTHER protocol on p0 and in the same protocol on p1
+        if proto == 9:
+            t_other = ip_template(rng, tid, lossless=True, varlen=False, enterprise=False)
+            ops.append(op_parse(0, msgs=[{"ipfix": {"m": {"exportTime": 1, "seq": 1, "odid": 1, "sets": [{"templates": {"ts": [t_other], "pad": ""}}]}}}], want=[]))
+            t = v9_template(rng, tid, lossless=True)
+            ops.append(op_parse(1, msgs=[{"v9": {"m": {"count": 1, "sysUpTime": 1, "unixSecs": 1, "seq": 1, "sourceId": 1, "sets": [{"templates": {"ts": [t], "pad": ""}}]}}}], want=[]))
+            recs = [v9_record(rng, t) for _ in range(rng.randrange(1, 4))]
+            data = {"v9": {"m": {"count": 1, "sysUpTime": 2, "unixSecs": 2, "seq": 2, "sourceId": 1, "sets": [{"data": {"id": tid, "recs": recs, "pad": ""}}]}}}
+            tmsg = {"v9": {"m": {"count": 1, "sysUpTime": 3, "unixSecs": 3, "seq": 3, "sourceId": 1, "sets": [{"templates": {"ts": [t], "pad": ""}}]}}}
+        else:
+            t_other = v9_template(rng, tid, lossless=True)
+            ops.append(op_parse(0, msgs=[{"v9": {"m": {"count": 1, "sysUpTime": 1, "unixSecs": 1, "seq": 1, "sourceId": 1, "sets": [{"templates": {"ts": [t_other], "pad": ""}}]}}}], want=[]))
+            t = ip_template(rng, tid, lossless=True, varlen=False, enterprise=False)
+            ops.append(op_parse(1, msgs=[{"ipfix": {"m": {"exportTime": 1, "seq": 1, "odid": 1, "sets": [{"templates": {"ts": [t], "pad": ""}}]}}}], want=[]))
+            recs = [ip_record(rng, t["fields"]) for _ in range(rng.randrange(1, 4))]
+            data = {"ipfix": {"m": {"exportTime": 2, "seq": 2, "odid": 1, "sets": [{"data": {"id": tid, "recs": recs, "pad": ""}}]}}}
+            tmsg = {"ipfix": {"m": {"exportTime": 3, "seq": 3, "odid": 1, "sets": [{"templates": {"ts": [t], "pad": ""}}]}}}
+        before = [msg_v5(rng, 1)] if rng.random() < 0.5 else []
+        o = op_parse(0, msgs=before + [data], want=[])
+        o["unknown_id"] = tid
+        o["unknown_proto"] = proto
+        ops.append(o)
+        ops.append({"op": "assert_unchanged", "a": 0, "key": "C07"})
+        # later the template arrives, then the same data decodes normally (C04/C05 oracle on that call)
+        ops.append(op_parse(0, msgs=[tmsg], want=[]))
+        ops.append(op_parse(0, msgs=[data], want=[]))
+        out.append(("unknown-template", ops))
+    return out
+
+
+def fam_common(rng, n):
+    """C13: templates made of the projected fields (any subset/order, IPv4 or IPv6), several records
+    and data sets; `flat` on a second parser with the same history"""
+    out = []
+    for _ in range(n):
+        ops = [op_new(0), op_new(1)]
+        ex = Exporter(rng, common=True, simple_ipfix=True)
+        calls = [rand_packets(rng, ex, rng.choice([1, 2])) for _ in range(rng.randrange(1, 4))]
+        for c in calls:
+            ops.append(op_parse(0, msgs=c, want=["common"]))
+            ops.append({"op": "flat", "p": 1, "msgs": c})
+        ops.append({"op": "assert_flat", "a": 0, "b": 1})
+        out.append(("common", ops))
+    return out
+
+
+def fam_extremal(rng, tier):
+    """C01/C15: the proved worst cases for recursion depth and allocation, always AFTER a history that
+    cached attacker-chosen templates"""
+    out = []
+    # (a) one IPFIX data set packed with 1-byte records (recursion depth = number of records)
+    for nrec in ([2000, 20000, 65000] if tier == "quick" else [1000, 2000, 4000, 8000, 16000, 32000, 65000]):
+        t = {"id": 256, "fields": [{"typ": 4, "len": 1, "ent": None}]}
+        tm = {"ipfix": {"m": {"exportTime": 1, "seq": 1, "odid": 1, "sets": [{"templates": {"ts": [t], "pad": ""}}]}}}
+        data = {"ipfix": {"m": {"exportTime": 2, "seq": 2, "odid": 1, "sets": [{"data": {"id": 256, "recs": [[{"content": "07", "form": "fixed"}]] * nrec, "pad": ""}}]}}}
+        out.append(("extremal-ipfix-records-%d" % nrec, [op_new(0), op_parse(0, msgs=[tm], want=[]), op_parse(0, msgs=[data], want=["export", "common", "json"])]))
+    # (b) a buffer packed with minimal packets (recursion depth of parse_bytes = number of packets)
+    for npk in ([500, 4095] if tier == "quick" else [250, 500, 1000, 2000, 4095]):
+        empty = {"ipfix": {"m": {"exportTime": 1, "seq": 1, "odid": 1, "sets": []}}}
+        out.append(("extremal-chain-ipfix-%d" % npk, [op_new(0), op_parse(0, msgs=[empty] * npk, want=["export", "common", "json"])]))
+    for npk in ([2730] if tier == "quick" else [1000, 2730]):
+        out.append(("extremal-chain-v5-%d" % npk, [op_new(0), op_parse(0, msgs=[msg_v5(rng, 0)] * npk, want=["export", "common", "json"])]))
+    # (c) V9 template whose declared total size is zero, then data for it
+    for fields in ([], [{"typ": 94, "len": 0}], [{"typ": 95, "len": 0}, {"typ": 94, "len": 0}]):
+        t = {"id": 256, "fieldCount": len(fields), "fields": fields}
+        tm = {"v9": {"m": {"count": 1, "sysUpTime": 1, "unixSecs": 1, "seq": 1, "sourceId": 1, "sets": [{"templates": {"ts": [t], "pad": ""}}]}}}
+        data = {"v9": {"m": {"count": 1, "sysUpTime": 2, "unixSecs": 2, "seq": 2, "sourceId": 1, "sets": [{"data": {"id": 256, "recs": [], "pad": "00000000"}}]}}}
+        out.append(("extremal-v9-zero-size", [op_new(0), op_parse(0, msgs=[tm], want=[]), op_parse(0, msgs=[data], want=["export", "common", "json"])]))
+    # (d) headers announcing 65535 records / fields over short bodies
+    for h in ["0005ffff" + "00" * 20, "0007ffff" + "00" * 20, "0009ffff" + "00" * 16, "000a0014" + "00" * 12 + "0002ffff", "000a0018" + "00" * 12 + "00020008" + "0100ffff",
+              "0009000100000000000000000000000000000000" + "00000008" + "0100ffff", "000a001a" + "00" * 12 + "0003000a" + "0100ffffffff"]:
+        out.append(("extremal-counts", [op_new(0), op_parse(0, hexs=h, want=["export", "common", "json"])]))
+    # (e) many zero-length fields: template with k zero-length string fields and one 1-byte field
+    for k in ([50, 1000] if tier == "quick" else [50, 500, 2000, 4000]):
+        fs = [{"typ": 82, "len": 0, "ent": None}] * k + [{"typ": 4, "len": 1, "ent": None}]
+        t = {"id": 256, "fields": fs}
+        tm = {"ipfix": {"m": {"exportTime": 1, "seq": 1, "odid": 1, "sets": [{"templates": {"ts": [t], "pad": ""}}]}}}
+        rec = [{"content": "", "form": "fixed"}] * k + [{"content": "01", "form": "fixed"}]
+        data = {"ipfix": {"m": {"exportTime": 2, "seq": 2, "odid": 1, "sets": [{"data": {"id": 256, "recs": [rec] * 50, "pad": ""}}]}}}
+        out.append(("extremal-zero-length-fields-%d" % k, [op_new(0), op_parse(0, msgs=[tm], want=[]), op_parse(0, msgs=[data], want=["export", "common"])]))
+    return out
+
+
 def mutate_hex(rng, h):
     b = bytearray(bytes.fromhex(h))
     if not b:
@@ -372,6 +646,8 @@ def mutate_scenarios(rng, encoded, per=2):
     """encoded: scenarios whose parse ops already carry hex.  Returns mutated copies (raw hex ops)."""
     out = []
     for kind, ops in encoded:
+        if any(o["op"].startswith("assert_") or o["op"] == "flat" for o in ops):
+            continue
         for _ in range(per):
             new = []
             idxs = [i for i, o in enumerate(ops) if o["op"] == "parse"]
